@@ -221,28 +221,57 @@ def _real_dims(v):
     return [d for d in v["dims"] if not d.startswith("strlen")]
 
 
+SHARED_ATTRS = PARENT_ATTRS + ("bounds", "climatology", "grid_mapping", "formula_terms")
+
+
 def replacement(F, site, kind, dvs=()):
     """The existing variable that replaces the token for the kinds 'foreign-shared' (a variable that
-    another variable validly names in the same attribute, but whose dimensions are foreign to this
-    parent) and 'foreign-data' (another data variable with foreign dimensions); None if there is none."""
+    ANOTHER variable validly names in the same attribute - a valid construct of another data variable,
+    defined earlier or later in the file - but which does not fit here: dimensions foreign to this
+    parent, or to this coordinate for bounds / nodes / formula terms) and 'foreign-data' (another data
+    variable with foreign dimensions); None if there is none."""
     vname, attr, i, role = site
-    if role != "var" or attr not in PARENT_ATTRS or vname is None:
+    if role != "var" or vname is None:
+        return None
+    if attr not in (SHARED_ATTRS if kind == "foreign-shared" else PARENT_ATTRS):
         return None
     parent = get_var(F, vname)
     pd = set(_real_dims(parent))
-    here = {t.rstrip(":") for t in tokens(parent["attrs"][attr])}
+    toks = tokens(parent["attrs"][attr])
+    here = {t.rstrip(":") for t in toks}
     cands = []
     if kind == "foreign-shared":
-        for w in F["vars"]:
-            s = w["attrs"].get(attr)
-            if w["name"] == vname or not isinstance(s, str):
-                continue
-            for t in tokens(s):
-                if t.endswith(":") or t in here or t in cands:
+        if attr == "grid_mapping" and ":" not in parent["attrs"][attr]:
+            return None              # the sole token is the grid mapping variable, a container
+        if attr == "grid_mapping":
+            # a coordinate of ANOTHER data variable that is no coordinate of this one
+            own = set(tokens(parent["attrs"].get("coordinates", ""))) | pd
+            for w in F["vars"]:
+                if w["name"] == vname:
                     continue
-                x = get_var(F, t)
-                if x is not None and not set(_real_dims(x)) <= pd:
-                    cands.append(t)
+                for t in tokens(w["attrs"].get("coordinates", "")) if isinstance(w["attrs"].get("coordinates"), str) else []:
+                    if t not in own and t not in here and t not in cands and get_var(F, t) is not None:
+                        cands.append(t)
+        else:
+            for w in F["vars"]:
+                s = w["attrs"].get(attr)
+                if w["name"] == vname or not isinstance(s, str):
+                    continue
+                for t in tokens(s):
+                    if t.endswith(":") or t in here or t in cands:
+                        continue
+                    x = get_var(F, t)
+                    if x is None:
+                        continue
+                    if attr in PARENT_ATTRS:
+                        fits = set(_real_dims(x)) <= pd
+                    elif attr in ("bounds", "climatology"):
+                        fits = _real_dims(x)[:-1] == _real_dims(parent)
+                    else:                # formula_terms
+                        orig = get_var(F, toks[i])
+                        fits = orig is not None and _real_dims(x) == _real_dims(orig)
+                    if not fits:
+                        cands.append(t)
     elif kind == "foreign-data":
         for n in dvs:
             x = get_var(F, n)
@@ -317,6 +346,8 @@ def malformations(attr, s):
         out.append(("empty", " "))
         if ":" in s:
             out.append(("nocolon", s.replace(":", "", 1)))
+    elif attr == "compress":
+        out.append(("empty", " "))
     elif attr == "cell_methods":
         out.append(("noclose", s + " (interval: 1 hr"))
         out.append(("badinterval", s + " (interval: one hr)"))
@@ -334,7 +365,7 @@ def mal_sites(F):
     out = []
     for v in F["vars"]:
         for a, s in v["attrs"].items():
-            if isinstance(s, str) and a in ("formula_terms", "cell_measures", "grid_mapping", "cell_methods"):
+            if isinstance(s, str) and a in ("formula_terms", "cell_measures", "grid_mapping", "cell_methods", "compress"):
                 for name, _ in malformations(a, s):
                     out.append((v["name"], a, name))
     return out
@@ -623,7 +654,8 @@ def gen_geometry(rng):
     gtype = rng.choice(["point", "line", "polygon", "polygon"])
     ncells = rng.randint(2, 3)
     if gtype == "point":
-        cells = [[rng.randint(1, 2)] for _ in range(ncells)]
+        # half of the point geometries have one node per cell (then node_count may be left out)
+        cells = [[1] for _ in range(ncells)] if rng.random() < 0.5 else [[rng.randint(1, 2)] for _ in range(ncells)]
     else:
         cells = [[rng.randint(2, 3) for _ in range(rng.randint(1, 2))] for _ in range(ncells)]
     multi = any(len(c) > 1 for c in cells)
@@ -685,7 +717,7 @@ def gen_geometry(rng):
     return F
 
 
-TEMPLATES = ("grid", "grid", "grid", "dsg", "gathered", "geometry")
+TEMPLATES = ("grid", "grid", "grid", "dsg", "dsg", "gathered", "geometry", "geometry")
 
 
 def gen_file(rng, template=None):
